@@ -158,6 +158,7 @@ type ServerOpts struct {
 	ReloadTimeout time.Duration
 	ValidationKey []byte
 	Compress      bool
+	ControlPath   string // directory watched by WatchControlDirAndReload for the "reload"/"switchdb" files
 }
 
 // OpenServer loads a compiled database into a handler.
@@ -168,7 +169,7 @@ func OpenServer(path string, b Backend, o ServerOpts) (*Server, error) {
 	}
 	h, err := dnsserver.NewFBDNSDBBasic(
 		dnsserver.HandlerConfig{AlwaysCompress: o.Compress},
-		dnsserver.DBConfig{Path: path, Driver: b.Driver, ReloadTimeout: o.ReloadTimeout, ValidationKey: o.ValidationKey},
+		dnsserver.DBConfig{Path: path, Driver: b.Driver, ReloadTimeout: o.ReloadTimeout, ValidationKey: o.ValidationKey, ControlPath: o.ControlPath},
 		dnsserver.CacheConfig{Enabled: o.Cache, LRUSize: 4096, WRSTimeout: o.WRSTimeout}, lg, st)
 	if err != nil {
 		return nil, err
